@@ -67,8 +67,9 @@ def gen_case0(rng, car):
         if not cplx and rng.random() < 0.3:        # a scalar with ~30 significant bits: exact in float64, not representable in float32
             c = expr.wide_dyadic(rng)
             return Op(op, [A, Scal(rng.choice(["float", "npf64", "t0"]), c, coq_value=Fraction(c))]), "ttm-scalar-wide", coqrun.QC
-        kind = rng.choice(["int", "float", "npf64", "npi64", "t0", "t1"])
-        return Op(op, [A, Scal(kind, rng.choice([0, 1, 2, -3]))]), "ttm-scalar", None
+        kind = rng.choice(["int", "float", "npf64", "npi64", "t0", "t1", "npu8", "tu8", "npi32"])
+        v = rng.choice([0, 1, 2, -3])
+        return Op(op, [A, Scal(kind, abs(v) if kind in ("npu8", "tu8") else v)]), "ttm-scalar", None
     if r < 0.98:
         A2 = Lit4([c * 2 for c in A.cores[:1]] + A.cores[1:]) if not cplx else A
         if cplx:
